@@ -36,6 +36,9 @@ THEOREMS = [(PROPS, 'NSV.C03.' + n) for n in (
     'midi_tick_roundtrip', 'midi_time_to_tick_mono', 'midi_tick_grid_fixed',
     'midi_note_keeps_length',
     'midi_tempo_quantisation', 'midi_write_ok',
+    # drop_events_n_seconds_after_last_note: cut-off = end of the note that ends last + n, nothing else (not total_time)
+    'maxEnd_ge', 'maxEnd_mem', 'midi_drop_cutoff_from_notes_only', 'midi_write_ignores_total_time', 'midi_drop_none',
+    'midi_drop_exact', 'midi_drop_float', 'midi_drop_keeps_events_within_notes',
 )] + [(FLT, 'NSV.C03.' + n) for n in (
     # monotonicity in floats
     'midi_tick_to_time_mono_float', 'midi_time_to_tick_mono_float', 'midi_note_order_kept_float',
@@ -191,6 +194,8 @@ def read_result(midi_io, pm):
 def us_tempo(rng):
     """a microsecond-representable tempo (qpm = 6e7 / integer microseconds per quarter), 40..300 qpm"""
     us = rng.choice([500000, 250000, 1000000, 600000, rng.randint(200000, 1500000), rng.randint(200000, 1500000)])
+    if rng.random() < 0.03:
+        us = rng.choice([16777215, 16777214, 8388608, 20000, 60000])     # slowest storable tempo (3.58 qpm) … 3000 qpm
     return 6e7 / us
 
 
@@ -296,7 +301,7 @@ def gen_valid(rng, long_times=False):
         hist.add('groups:more-than-16')
     for inst in range(first_inst, first_inst + ninst):
         for _ in range(rng.choice([1, 1, 2, 3]) if not many else 1):
-            g = (inst, rng.choice([0, 0, 5, 40, rng.randrange(128)]), rng.random() < 0.2)
+            g = (inst, rng.choice([0, 0, 5, 40, 127, rng.randrange(128)]), rng.random() < 0.2)
             if g not in groups:
                 groups.append(g)
     if sum(1 for g in groups if g[0] == 0) > 1:
@@ -318,7 +323,7 @@ def gen_valid(rng, long_times=False):
         if len(ns.notes) >= nnotes:
             break
         g = rng.choice(groups)
-        pitch = rng.choice([60, 60, 62, 36, rng.randrange(128)])
+        pitch = rng.choice([60, 60, 62, 36, 0, 127, rng.randrange(128)])
         okey = ((g[0],) if per_instrument else g) + (pitch,)
         k = rng.random()
         prev = occ.get(okey)
@@ -364,6 +369,17 @@ def gen_valid(rng, long_times=False):
     noted = sorted({(n.instrument, n.program, n.is_drum) for n in ns.notes})
     end = max([n.end_time for n in ns.notes] + [0.0])
     ns.total_time = end
+    # total_time is optional metadata: nothing the round trip returns may depend on it (unset / stale / too large)
+    k = rng.random()
+    if k < 0.12:
+        ns.total_time = 0.0
+        hist.add('total_time:unset')
+    elif k < 0.20 and end > 0:
+        ns.total_time = end * rng.choice([0.25, 0.5])
+        hist.add('total_time:stale-smaller-than-last-note-end')
+    elif k < 0.28:
+        ns.total_time = end + rng.choice([0.5, 3.0])
+        hist.add('total_time:larger-than-last-note-end')
     pool = [n.start_time for n in ns.notes] + [n.end_time for n in ns.notes] + [0.0]
 
     def ev_time():
@@ -400,7 +416,10 @@ def gen_valid(rng, long_times=False):
         return out
     for t in sig_times(rng.choice([0, 1, 1, 2, 3])):
         x = ns.time_signatures.add()
-        x.time, x.numerator, x.denominator = t, rng.choice([4, 3, 6, 12, 1, rng.randrange(1, 33)]), rng.choice([1, 2, 4, 4, 8, 16, 32])
+        x.time, x.numerator, x.denominator = (t, rng.choice([4, 3, 6, 12, 1, 255, rng.randrange(1, 33), rng.randrange(1, 256)]),
+                                              rng.choice([1, 2, 4, 4, 8, 16, 32, 2 ** 30, 2 ** rng.randrange(0, 31)]))
+        if x.denominator > 32:
+            hist.add('tsig:denominator>32')
         hist.add('tsig')
     if ns.time_signatures and min(x.time for x in ns.time_signatures) > 0:
         hist.add('tsig:first-after-zero')
@@ -412,6 +431,94 @@ def gen_valid(rng, long_times=False):
         ii = ns.instrument_infos.add()
         ii.instrument, ii.name = rng.choice(noted)[0], 'lead'
     return ns, hist
+
+
+def log2_inexact(d):
+    """mido encodes a time-signature denominator with math.log(d, 2); for some powers of two that float is not integral
+    (2^29 is the only one that fits the int32 field) and the write raises - open known finding F-C03-4 (third party)."""
+    return d > 0 and d & (d - 1) == 0 and not math.log(d, 2).is_integer()
+
+
+def gen_extremes():
+    """first and last legal value of every field of the quantifier, one small sequence each (always run)."""
+    from note_seq.protobuf import music_pb2
+    out = []
+
+    def base(tpq=480, pitch=60, vel=100, prog=0, drum=False, inst=0):
+        ns = music_pb2.NoteSequence()
+        ns.ticks_per_quarter = tpq
+        n = ns.notes.add()
+        n.pitch, n.velocity, n.program, n.is_drum, n.instrument = pitch, vel, prog, drum, inst
+        n.start_time, n.end_time = 0.0, 0.5
+        ns.total_time = 0.5
+        return ns
+    out.append((music_pb2.NoteSequence(), 'empty sequence'))
+    e = music_pb2.NoteSequence()
+    e.tempos.add(time=0.0, qpm=90.0)
+    e.time_signatures.add(time=0.0, numerator=3, denominator=4)
+    out.append((e, 'no notes, tempo and time signature only'))
+    for tpq in (24, 960):
+        for pitch, vel, prog in ((0, 1, 0), (127, 127, 127), (0, 127, 127), (127, 1, 0)):
+            for drum in (False, True):
+                ns = base(tpq, pitch, vel, prog, drum)
+                for bend in (-8192, 8191, 0):
+                    ns.pitch_bends.add(time=0.25, bend=bend, program=prog, is_drum=drum)
+                for num, val in ((0, 0), (127, 127), (0, 127), (127, 0)):
+                    ns.control_changes.add(time=0.25, control_number=num, control_value=val, program=prog, is_drum=drum)
+                out.append((ns, 'pitch/velocity/program/bend/control at both ends of their ranges'))
+    for den in [2 ** k for k in range(0, 31)]:
+        for num in (1, 255):
+            ns = base()
+            ns.time_signatures.add(time=0.0, numerator=num, denominator=den)
+            out.append((ns, 'time signature numerator 1 / 255, denominator 2^0 … 2^30'))
+    for key in range(12):
+        for mode in (0, 1):
+            ns = base()
+            ns.key_signatures.add(time=0.0, key=key, mode=mode)
+            out.append((ns, 'all 24 keys'))
+    for us in (16777215, 1000000, 20000):
+        for tpq in (24, 960):
+            ns = base(tpq)
+            ns.tempos.add(time=0.0, qpm=6e7 / us)
+            c = 60.0 / (6e7 / us * tpq)
+            ns.notes[0].end_time = 2 * c                      # exactly two ticks long
+            n = ns.notes.add()
+            n.pitch, n.velocity, n.start_time, n.end_time = 60, 1, 2 * c, 5 * c      # touching
+            ns.total_time = 5 * c
+            out.append((ns, 'slowest / fastest tempo, note exactly two ticks long, touching notes'))
+    for inst in (0, 1, 15, 16, 2 ** 31 - 1):
+        out.append((base(inst=inst), 'instrument number 0 … 2^31-1'))
+    return out
+
+
+def event_times(ns):
+    return [e.time for f in (ns.control_changes, ns.pitch_bends, ns.time_signatures, ns.key_signatures, ns.tempos) for e in f]
+
+
+def pick_drop(rng, ns, hist, p=0.4):
+    """a value of drop_events_n_seconds_after_last_note for a valid sequence (None = parameter not given).  Half of the
+    values put the cut-off last_note_end + drop exactly on an event that lies after the last note, or 1 ulp to either side
+    of it; the rest are round values incl. 0.0 (cut-off = end of the last note)."""
+    if not ns.notes or rng.random() >= p:
+        return None
+    end = max(n.end_time for n in ns.notes)
+    later = sorted({t for t in event_times(ns) if t > end})
+    if later and rng.random() < 0.5:
+        t = rng.choice(later)
+        d = t - end
+        while end + d < t:
+            d = nx(d, 1)
+        while end + d > t:
+            d = nx(d, -1)
+        k = rng.choice([-1, 0, 0, 1])
+        d = max(0.0, nx(d, k))
+        hist.add('drop:cut-off-on-an-event' + ('' if k == 0 else '-1ulp' if k < 0 else '+1ulp'))
+    else:
+        d = rng.choice([0.0, 0.0, 0.25, 0.5, 1.0, 2.5, 1])
+        hist.add('drop:zero' if d == 0 else 'drop:round-value')
+    if later:
+        hist.add('drop:events-after-last-note')
+    return d
 
 
 # pretty_midi's own loader limit (`MAX_TICK = 1e7`): note_seq.midi_io raises it at import time, so files beyond it must
@@ -601,11 +708,66 @@ def gen_tickmap_case(rng):
 
 
 # ----------------------------------------------------------------------------- oracle (round-trip statement)
-def roundtrip(midi_io, ns):
-    pm = midi_io.note_sequence_to_pretty_midi(ns)
+def roundtrip(midi_io, ns, drop=None):
+    pm = midi_io.note_sequence_to_pretty_midi(ns) if drop is None else midi_io.note_sequence_to_pretty_midi(ns, drop)
     buf = io.BytesIO()
     pm.write(buf)
     return midi_io.midi_to_note_sequence(buf.getvalue()), buf.getvalue()
+
+
+DROPPABLE = ('time_signatures', 'key_signatures', 'tempos', 'pitch_bends', 'control_changes')
+
+
+def drop_variants(ns, drop):
+    """what `drop_events_n_seconds_after_last_note = drop` leaves of `ns` according to its documentation: "events that
+    occur this many seconds after the last note will be dropped" - the last note is the one that ENDS last (no other field,
+    in particular not total_time, enters), notes themselves are never dropped.  Exact arithmetic on the doubles: an event
+    strictly before  last_end + drop  stays, one strictly after it goes.  The text does not decide an event exactly AT the
+    cut-off, nor one between the exact sum and the sum rounded to a double; both readings are returned then
+    (first: such events kept, second: dropped).  Without notes there is no last note: both `nothing dropped` and
+    `cut-off = drop` are accepted."""
+    from note_seq.protobuf import music_pb2
+    if drop is None:
+        return [ns]
+    ends = [n.end_time for n in ns.notes]
+    exact = (max(F(e) for e in ends) if ends else F(0)) + F(drop)
+    fl = F(float((max(ends) if ends else 0.0) + drop))
+    lo, hi = min(exact, fl), max(exact, fl)
+    amb = any(lo <= F(e.time) <= hi for f in DROPPABLE for e in getattr(ns, f))
+    out = []
+    for keep_amb in ([True, False] if amb else [True]):
+        c = music_pb2.NoteSequence()
+        c.CopyFrom(ns)
+        for f in DROPPABLE:
+            kept = [e for e in getattr(ns, f) if F(e.time) < lo or (keep_amb and F(e.time) <= hi)]
+            c.ClearField(f)
+            getattr(c, f).extend(kept)
+        out.append(c)
+    if not ends:
+        out.append(ns)
+    return out
+
+
+def judge(ns, r, drop=None):
+    """the round-trip statement for `r` = what came back for `ns` written with `drop`.  Returns (what fails or None,
+    finding id or None)."""
+    whats, finding = [], None
+    variants = drop_variants(ns, drop)
+    for v in variants:
+        w = oracle(v, r)
+        if w is None:
+            return None, None
+        whats.append(w)
+    # known finding F-C03-3 ONLY when undoing the one-microsecond tempo truncation explains the whole failure
+    for v in variants:
+        try:
+            c = drift_corrected(v, r)
+            if c is not None and oracle(v, c) is None:
+                finding = 'F-C03-3'
+        except Exception:  # pylint: disable=broad-except
+            pass
+    return whats[0] + ('' if drop is None else ' [drop_events_n_seconds_after_last_note=%r, last note ends at %r, total_time %r]' % (
+        drop, max([n.end_time for n in ns.notes] or [0.0]), ns.total_time)), finding
 
 
 def in_effect(events, t, value, default):
@@ -792,13 +954,20 @@ def drift_corrected(ns, r, default_qpm=120.0):
 RAISED = 'round trip raised '
 
 
-def oracle_case(midi_io, ns, shuffle_rng=None):
+def oracle_case(midi_io, ns, shuffle_rng=None, drop=None):
     """run the real round trip and judge it.  Returns (what-fails-or-None, result, finding-id-or-None)."""
+    from note_seq.protobuf import music_pb2
+    given = music_pb2.NoteSequence()          # untouched copy: the statement is about the sequence that was GIVEN
+    given.CopyFrom(ns)
     try:
-        r, _ = roundtrip(midi_io, ns)
+        r, _ = roundtrip(midi_io, ns, drop)
     except Exception as e:  # pylint: disable=broad-except
-        return RAISED + '%s: %s' % (type(e).__name__, str(e)[:160]), None, None
-    what = oracle(ns, r)
+        f4 = isinstance(e, ValueError) and 'power of 2' in str(e) and any(log2_inexact(t.denominator) for t in ns.time_signatures)
+        return RAISED + '%s: %s' % (type(e).__name__, str(e)[:160]), None, 'F-C03-4' if f4 else None
+    what, finding = judge(given, r, drop)
+    if what is None and snap(ns) != snap(given):
+        ns.CopyFrom(given)
+        return CORR + 'note_sequence_to_pretty_midi changed the sequence it was given (the round trip still holds)', r, None
     if what is None and shuffle_rng is not None:
         sh = nswire.shuffled(ns, shuffle_rng)
         # only tempos and notes are claimed order independent: restore the other fields' order
@@ -806,21 +975,219 @@ def oracle_case(midi_io, ns, shuffle_rng=None):
             sh.ClearField(f)
             getattr(sh, f).extend(getattr(ns, f))
         try:
-            r2, _ = roundtrip(midi_io, sh)
+            r2, _ = roundtrip(midi_io, sh, drop)
         except Exception as e:  # pylint: disable=broad-except
             return 'round trip of the shuffled sequence raised %s' % type(e).__name__, r, None
         if canon(r2) != canon(r):
             what = 'result depends on the storage order of tempos / notes'
-    finding = None
-    if what and r is not None:
-        # known finding F-C03-3 ONLY when undoing the one-microsecond tempo truncation explains the whole failure
-        try:
-            c = drift_corrected(ns, r)
-            if c is not None and oracle(ns, c) is None:
-                finding = 'F-C03-3'
-        except Exception:  # pylint: disable=broad-except
-            finding = None
     return what, r, finding
+
+
+# ----------------------------------------------------------------------------- histories (purity / aliasing across calls)
+def snap(ns):
+    return ns.SerializeToString(deterministic=True)
+
+
+def caller_edit(r):
+    """what a caller may do with a sequence it was handed (it owns it): transpose, shift, retime, append, delete."""
+    for n in r.notes:
+        n.pitch = (n.pitch + 12) % 128
+        n.velocity = 1 + n.velocity % 127
+        n.start_time += 3.0
+        n.end_time += 4.5
+        n.program = (n.program + 1) % 128
+    for f in DROPPABLE:
+        for e in getattr(r, f):
+            e.time += 1.25
+    for t in r.tempos:
+        t.qpm = t.qpm * 2 + 1
+    x = r.notes.add()
+    x.pitch, x.velocity, x.start_time, x.end_time, x.instrument, x.program = 1, 1, 100.0, 101.0, 77, 77
+    del r.time_signatures[:]
+    r.total_time += 7.0
+    r.ticks_per_quarter += 1
+
+
+def pm_edit(pm):
+    """the same for a PrettyMIDI object the caller was handed."""
+    for i in pm.instruments:
+        for n in i.notes:
+            n.pitch, n.start, n.end = (n.pitch + 12) % 128, n.start + 3.0, n.end + 4.5
+        for c in i.control_changes:
+            c.time += 1.0
+        del i.pitch_bends[:]
+        i.program = (i.program + 1) % 128
+        if i.notes:
+            i.notes.pop()
+    for t in pm.time_signature_changes:
+        t.time += 1.0
+    del pm.key_signature_changes[:]
+    pm._tick_scales.append((pm._tick_scales[-1][0] + 7, 0.001))     # pylint: disable=protected-access
+    if pm.instruments:
+        pm.instruments.pop()
+
+
+def pm_shared(p, q):
+    """objects (instruments, notes, bends, control changes, signatures, the tick-scale list) two PrettyMIDI objects share"""
+    def parts(pm):
+        out = {id(pm._tick_scales): 'tick scale list', id(pm.instruments): 'instrument list'}   # pylint: disable=protected-access
+        for name, l in (('time signature', pm.time_signature_changes), ('key signature', pm.key_signature_changes)):
+            out[id(l)] = name + ' list'
+            out.update((id(x), name) for x in l)
+        for i in pm.instruments:
+            out[id(i)] = 'Instrument'
+            for name, l in (('Note', i.notes), ('PitchBend', i.pitch_bends), ('ControlChange', i.control_changes)):
+                out[id(l)] = name + ' list'
+                out.update((id(x), name) for x in l)
+        return out
+    a, b = parts(p), parts(q)
+    return sorted({a[k] for k in a if k in b})
+
+
+CORR = 'CORRESPONDENCE: '      # prefix of a finding that is not decided by the property statement (reported as a disagreement)
+
+
+def history_case(midi_io, a, b, drop_a, drop_b, path):
+    """short call histories over every public function of the property.  Statement-level verdicts come from `judge` only
+    (the round-trip statement evaluated on what the LATER call of a history returns, against untouched copies of the
+    sequences); everything else a pure function would guarantee (new objects, equal results for equal arguments,
+    arguments left byte-for-byte as they were, same bytes through the file variant, renamed entry points) is reported with
+    the prefix CORR = broken correspondence (the model is a pure function).  a, b: two valid sequences; `path` is written
+    several times.  Returns (what fails or None, finding id or None, tags)."""
+    import pretty_midi
+    from note_seq.protobuf import music_pb2
+    tags, corr = [], []
+    w = midi_io.note_sequence_to_pretty_midi
+    sa, sb = snap(a), snap(b)
+    a0, b0 = music_pb2.NoteSequence(), music_pb2.NoteSequence()      # untouched copies: what was given
+    a0.CopyFrom(a)
+    b0.CopyFrom(b)
+
+    def back(pm):
+        buf = io.BytesIO()
+        pm.write(buf)
+        return midi_io.midi_to_note_sequence(buf.getvalue()), buf.getvalue()
+
+    def done(what=None, finding=None):
+        if what is None and (snap(a) != sa or snap(b) != sb):
+            corr.append('a conversion function changed the sequence it was given')
+        if what is None and corr:
+            what = CORR + '; '.join(corr)
+        return what, finding, tags
+    # ---- H1: the writer twice on the same sequence; the first result edited in place; a third call, read back
+    pm1, pm2 = w(a, drop_a), w(a, drop_a)
+    l2 = pm_line(pm2)
+    if pm1 is pm2 or pm_shared(pm1, pm2):
+        corr.append('note_sequence_to_pretty_midi: two calls on the same sequence returned objects that share %s'
+                    % (['the PrettyMIDI object'] if pm1 is pm2 else pm_shared(pm1, pm2)))
+    if pm_line(pm1) != l2:
+        corr.append('note_sequence_to_pretty_midi: two calls on the same sequence built different PrettyMIDI objects')
+    pm_edit(pm1)
+    pm3 = w(a, drop_a)
+    tags.append('writer: same sequence twice, first result edited, third call read back')
+    r, _ = back(pm3)
+    what, finding = judge(a0, r, drop_a)
+    if what:
+        return done('note_sequence_to_pretty_midi called again after the caller edited the PrettyMIDI object of an earlier call: ' + what, finding)
+    r, bytes_a = back(pm2)
+    what, finding = judge(a0, r, drop_a)
+    if what:
+        return done('PrettyMIDI object of one call, written after the caller edited the object of ANOTHER call: ' + what, finding)
+    if pm_line(pm3) != l2:
+        corr.append('note_sequence_to_pretty_midi: third call differs from the second')
+    # ---- H2: file variant; the SAME PATH written twice with different sequences
+    midi_io.note_sequence_to_midi_file(a, path, drop_a)
+    with open(path, 'rb') as f:
+        if f.read() != bytes_a:
+            corr.append('note_sequence_to_midi_file wrote other bytes than note_sequence_to_pretty_midi(...).write')
+    ra = midi_io.midi_file_to_note_sequence(path)
+    what, finding = judge(a0, ra, drop_a)
+    if what:
+        return done('note_sequence_to_midi_file, then midi_file_to_note_sequence: ' + what, finding)
+    ra_snap = snap(ra)
+    midi_io.note_sequence_to_midi_file(b, path, drop_b)
+    rb = midi_io.midi_file_to_note_sequence(path)
+    tags.append('file: same path rewritten with another sequence')
+    what, finding = judge(b0, rb, drop_b)
+    if what:
+        return done('second sequence written to the SAME PATH, then midi_file_to_note_sequence(path): ' + what, finding)
+    with open(path, 'rb') as f:
+        data = f.read()
+    what, finding = judge(b0, midi_io.midi_to_note_sequence(data), drop_b)
+    if what:
+        return done('second sequence written to the SAME PATH, file content given to midi_to_note_sequence: ' + what, finding)
+    if rb is ra:
+        corr.append('midi_file_to_note_sequence returned the object of an earlier call')
+    rb_snap = snap(rb)
+    caller_edit(rb)
+    rb2 = midi_io.midi_file_to_note_sequence(path)
+    tags.append('file: re-read after the caller edited the earlier result')
+    what, finding = judge(b0, rb2, drop_b)
+    if what:
+        return done('midi_file_to_note_sequence on the unchanged file after the caller edited the result of the previous call%s: %s' % (
+            ' (the very object handed out before is returned again)' if rb2 is rb else '', what), finding)
+    if rb2 is rb or snap(rb2) != rb_snap:
+        corr.append('midi_file_to_note_sequence: second read of an unchanged file differs from the first')
+    if snap(ra) != ra_snap:
+        what, finding = judge(a0, ra, drop_a)
+        if what:
+            return done('the sequence midi_file_to_note_sequence returned EARLIER changed behind the caller\'s back: ' + what, finding)
+        corr.append('a sequence returned earlier changed behind the caller\'s back')
+    # ---- H3: the reader on bytes and on a PrettyMIDI object, twice, first result edited
+    r1 = midi_io.midi_to_note_sequence(data)
+    if snap(r1) != rb_snap:
+        corr.append('midi_to_note_sequence(bytes of the file) differs from midi_file_to_note_sequence(path)')
+    caller_edit(r1)
+    r2 = midi_io.midi_to_note_sequence(bytes(bytearray(data)))
+    tags.append('reader: same bytes twice, first result edited')
+    what, finding = judge(b0, r2, drop_b)
+    if what:
+        return done('midi_to_note_sequence on the same bytes after the caller edited the first result%s: %s' % (
+            ' (the very object handed out before is returned again)' if r2 is r1 else '', what), finding)
+    if r2 is r1 or snap(r2) != rb_snap:
+        corr.append('midi_to_note_sequence: second decode of the same bytes differs from the first')
+    pm = pretty_midi.PrettyMIDI(io.BytesIO(data))
+    lp = pm_line(pm)
+    r3 = midi_io.midi_to_note_sequence(pm)
+    caller_edit(r3)
+    r4 = midi_io.midi_to_note_sequence(pm)
+    tags.append('reader: same PrettyMIDI object twice, first result edited')
+    what, finding = judge(b0, r4, drop_b)
+    if what:
+        return done('midi_to_note_sequence on the same PrettyMIDI object after the caller edited the first result%s: %s' % (
+            ' (the very object handed out before is returned again)' if r4 is r3 else '', what), finding)
+    if pm_line(pm) != lp:
+        corr.append('midi_to_note_sequence changed the PrettyMIDI object it was given')
+    if r4 is r3 or snap(r4) != rb_snap:
+        corr.append('midi_to_note_sequence: second call on the same PrettyMIDI object differs from the decode of the bytes')
+    # ---- H4: the renamed entry points are the same functions
+    l5 = pm_line(midi_io.sequence_proto_to_pretty_midi(a, drop_a))
+    midi_io.sequence_proto_to_midi_file(a, path, drop_a)
+    r5, r6 = midi_io.midi_file_to_sequence_proto(path), midi_io.midi_to_sequence_proto(bytes_a)
+    tags.append('renamed entry points')
+    for r in (r5, r6):
+        what, finding = judge(a0, r, drop_a)
+        if what:
+            return done('renamed entry points (sequence_proto_to_midi_file / midi_file_to_sequence_proto / midi_to_sequence_proto): ' + what, finding)
+    if l5 != l2 or snap(r5) != ra_snap or snap(r6) != ra_snap:
+        corr.append('a renamed entry point (sequence_proto_to_* / *_to_sequence_proto) behaves differently from the function it names')
+    return done()
+
+
+def report(chk, what, replay_input, finding=None):
+    """a statement-level failure -> chk.fail (concrete failing input); a CORR finding -> broken correspondence."""
+    if what.startswith(CORR):
+        chk.disagree('purity (call histories)', replay_input, what[len(CORR):], 'every conversion is a function of its arguments: new '
+                     'objects, equal results for equal arguments, arguments left as they were')
+    else:
+        chk.fail(what, replay_input, finding=finding)
+
+
+def run_history(midi_io, a, b, da, db, path):
+    try:
+        return history_case(midi_io, a, b, da, db, path)
+    except Exception as e:  # pylint: disable=broad-except
+        return 'a call of the history raised %s: %s' % (type(e).__name__, str(e)[:160]), None, []
 
 
 # ----------------------------------------------------------------------------- corpus
@@ -902,26 +1269,40 @@ def run(chk):
             add('key', 'ekey %d %d' % (key, mode), None, 'encode')   # filled from the writer below
     # (b) writer / reader models vs the real functions
     seqs = []
+    hist_cases = []          # (kind, a, b, drop_a, drop_b)
     for name, obj in corpus_cases(PID):
-        seqs.append(('corpus:' + name, corpus_sequence(obj), None, {'corpus'}))
+        if obj.get('history'):
+            hist_cases.append(('corpus:' + name, nswire.decode(obj['sequence']), nswire.decode(obj['second']),
+                               obj.get('drop'), obj.get('second_drop')))
+        seqs.append(('corpus:' + name, corpus_sequence(obj), obj.get('drop'), {'corpus'}))
     # a handful of VERY LONG sequences (last tick around / beyond pretty_midi's default loader limit of 10^7): cheap
     # (few notes), but the reader allocates one float per tick, so only a few per run
     rng = chk.subrng('verylong')
     for i in range(chk.n(3, 12)):
         ns, hist = gen_very_long(rng, VERY_LONG_TARGETS[i % len(VERY_LONG_TARGETS)])
         seqs.append(('verylong', ns, None, hist))
+    # (incl. denominator 2^29, on which the write raises inside mido: open known finding F-C03-4, seen on every run)
+    for ns, tag in gen_extremes():
+        seqs.append(('valid', ns, None, {'extreme: ' + tag}))
+        if ns.notes:
+            seqs.append(('valid', ns, 0.0, {'extreme: ' + tag, 'drop:zero'}))
     rng = chk.subrng('valid')
     for _ in range(chk.n(1500, 20000)):
         ns, hist = gen_valid(rng)
-        seqs.append(('valid', ns, None, hist))
+        seqs.append(('valid', ns, pick_drop(rng, ns, hist), hist))
     rng = chk.subrng('malformed')
     for _ in range(chk.n(1000, 12000)):
         ns, drop, hist = gen_malformed(rng)
         seqs.append(('malformed', ns, drop, hist))
     pms = []
     for kind, ns, drop, hist in seqs:
-        pm, res = write_result(midi_io, ns, drop)
         wire = nswire.encode(ns)
+        before = snap(ns)
+        pm, res = write_result(midi_io, ns, drop)
+        if snap(ns) != before:       # also when the call raised
+            chk.disagree('write: argument changed', {'request': 'write %s %s' % ('-' if drop is None else rat(drop), wire[:6000])},
+                         'note_sequence_to_pretty_midi changed the sequence it was given (%s)' % res[:40], 'argument left as it was')
+            ns.ParseFromString(before)
         add('write', 'write %s %s' % ('-' if drop is None else rat(drop), wire), res,
             sorted(hist) + ['result:' + (res if res.startswith('err') else 'ok'), 'stream:' + kind.split(':')[0]])
         if pm is not None:
@@ -965,6 +1346,9 @@ def run(chk):
         line = pm_line(pm)
         _, res = read_result(midi_io, pm)
         add('read', 'read ' + line, res, hist + ['result:' + (res if res.startswith('err') else 'ok')])
+        if pm_line(pm) != line:      # also when the call raised
+            chk.disagree('read: argument changed', {'request': 'read ' + line[:6000]}, 'midi_to_note_sequence changed the '
+                         'PrettyMIDI object it was given: ' + pm_line(pm)[:600], 'argument left as it was')
     for i in range(-3, 40):
         try:
             import types
@@ -990,27 +1374,56 @@ def run(chk):
     chk.notes['roundtrip-monitor'] = ('sampling across third-party code (pretty_midi.write, mido, pretty_midi loader): '
                                       'monitored, not proved')
     srng = chk.subrng('shuffle')
-    todo = [(kind, ns) for kind, ns, drop, _ in seqs if kind != 'malformed']
+    todo = [(kind, ns, drop) for kind, ns, drop, _ in seqs if kind != 'malformed']
     rng = chk.subrng('long')
     for _ in range(chk.n(100, 1500)):
         ns, hist = gen_valid(rng, long_times=True)
-        todo.append(('long', ns))
+        todo.append(('long', ns, pick_drop(rng, ns, hist, 0.25)))
     rt_reqs, rt_real = [], []
-    for kind, ns in todo:
-        what, r, finding = oracle_case(midi_io, ns, srng)
-        chk.count('roundtrip-monitor', None, hist=['stream:' + kind.split(':')[0], 'verdict:' + ('holds' if what is None else 'FAILS'),
-                                                   last_tick_class(ns)])
+    for kind, ns, drop in todo:
+        what, r, finding = oracle_case(midi_io, ns, srng, drop)
+        ends = [n.end_time for n in ns.notes]
+        chk.count('roundtrip-monitor', None, hist=[
+            'stream:' + kind.split(':')[0], 'verdict:' + ('holds' if what is None else 'FAILS'), last_tick_class(ns),
+            'drop:' + ('not given' if drop is None else 'given, %s' % (
+                'some event beyond the cut-off' if any(F(t) > F(max(ends or [0.0])) + F(drop) for t in event_times(ns))
+                else 'no event beyond the cut-off')),
+            'total_time:' + ('unset' if ns.total_time == 0 else 'last note end' if ns.total_time == max(ends or [0.0]) else
+                             'stale (smaller)' if ns.total_time < max(ends or [0.0]) else 'larger')])
+        rq = 'rt %s %s' % ('-' if drop is None else rat(drop), nswire.encode(ns))
         if r is not None:
-            rt_reqs.append('rt - ' + nswire.encode(ns))
+            rt_reqs.append(rq)
             rt_real.append((kind, r))
-        elif what and what.startswith(RAISED):
+        elif what and what.startswith(RAISED) and finding != 'F-C03-4':      # (F-C03-4: raised inside mido's encoder, outside the model)
             # the real round trip raised: the composed model (incl. the loader's tick guard) must predict that too
-            rt_reqs.append('rt - ' + nswire.encode(ns))
+            rt_reqs.append(rq)
             rt_real.append((kind, 'err ' + what[len(RAISED):].split(':')[0]))
         if what:
-            chk.fail(what, {'sequence': nswire.encode(ns)}, finding=finding)
+            report(chk, what, {'sequence': nswire.encode(ns), 'drop': drop}, finding)
             if len(chk.failures) > 20:
                 break
+    # (d) CALL HISTORIES over every public function of the property (file variants included): same arguments twice,
+    # result of call 1 edited in place before call 2, the same path written twice, arguments compared byte for byte
+    valid = [(ns, drop) for kind, ns, drop, _ in seqs if kind == 'valid' and ns.notes]
+    for i in range(0, min(len(valid) - 1, 2 * chk.n(150, 1500)), 2):
+        hist_cases.append(('valid', valid[i][0], valid[i + 1][0], valid[i][1], valid[i + 1][1]))
+    import os
+    import tempfile
+    tmpd = tempfile.mkdtemp(prefix='c03_hist_')
+    path = os.path.join(tmpd, 'out.mid')      # ONE path for all histories of the run
+    try:
+        for kind, a, b, da, db in hist_cases:
+            what, finding, tags = run_history(midi_io, a, b, da, db, path)
+            chk.count('history', None, hist=['stream:' + kind.split(':')[0], 'verdict:' + ('holds' if what is None else 'FAILS')] + tags)
+            if what:
+                report(chk, what, {'history': 'writer twice / same path rewritten / re-read after caller edit', 'sequence': nswire.encode(a),
+                                   'second': nswire.encode(b), 'drop': da, 'second_drop': db}, finding)
+                if len(chk.failures) > 25:
+                    break
+    finally:
+        for f in os.listdir(tmpd):
+            os.unlink(os.path.join(tmpd, f))
+        os.rmdir(tmpd)
     # the composed model (writer -> assumed transport contract -> reader) must predict the real byte-level round trip
     rt_model = chk.driver(EXE, rt_reqs)
     okk = [i for i, (_, r) in enumerate(rt_real) if not isinstance(r, str)]
@@ -1033,11 +1446,30 @@ def run(chk):
             ns = corpus_sequence(m)
             what, _, finding = oracle_case(midi_io, ns, srng)
             if what:
-                chk.fail(what, m, finding=e['id'] if e.get('status') == 'open' else finding)
+                report(chk, what, m, e['id'] if e.get('status') == 'open' else finding)
 
 
 def replay(chk, obj):
     from note_seq import midi_io
+    if obj.get('history'):
+        import os
+        import tempfile
+        a, b = nswire.decode(obj['sequence']), nswire.decode(obj['second'])
+        tmpd = tempfile.mkdtemp(prefix='c03_hist_')
+        path = os.path.join(tmpd, 'out.mid')
+        try:
+            what, finding, tags = run_history(midi_io, a, b, obj.get('drop'), obj.get('second_drop'), path)
+        finally:
+            for f in os.listdir(tmpd):
+                os.unlink(os.path.join(tmpd, f))
+            os.rmdir(tmpd)
+        print('replay C03 (call history: writer twice; first sequence written to a path and read back; second sequence written '
+              'to the SAME path and read back; result edited by the caller; read again): steps passed: %s' % (tags or 'none'))
+        if what and what.startswith(CORR):
+            print('property statement holds on this history; NOT a pure function: %s' % what[len(CORR):])
+            return 0
+        print('PROPERTY FAILS: %s%s' % (what, ' [known finding %s]' % finding if finding else '') if what else 'property holds on this history')
+        return 1 if what else 0
     if obj.get('kind') == 'no-failing-input-found':
         print('replay C03: no failing input was found; what no longer checks:', obj.get('no_longer_checks'))
         bad = 0
@@ -1045,15 +1477,24 @@ def replay(chk, obj):
             req = d['input']['request']
             print('correspondence disagreement on stream %s: %s …' % (d['stream'], req[:120]))
             if req.startswith(('write', 'rt')) and ' NS ' in req:
-                what, _, finding = oracle_case(midi_io, nswire.decode(req), chk.subrng('shuffle'))
+                from harness.common import unrat
+                tok = req.split(' ')[1]
+                what, _, finding = oracle_case(midi_io, nswire.decode(req), chk.subrng('shuffle'),
+                                               None if tok == '-' else float(unrat(tok)))
                 print('  oracle on this input: %s' % (what or 'property holds'))
-                bad += bool(what and not finding)
+                bad += bool(what and not finding and not what.startswith(CORR))
         return 1 if bad else 0
     ns = corpus_sequence(obj)
-    print('replay C03: %d notes, %d tempos, ticks_per_quarter %d' % (len(ns.notes), len(ns.tempos), ns.ticks_per_quarter))
-    what, r, finding = oracle_case(midi_io, ns, chk.subrng('shuffle'))
+    drop = obj.get('drop')
+    print('replay C03: %d notes, %d tempos, ticks_per_quarter %d%s' % (len(ns.notes), len(ns.tempos), ns.ticks_per_quarter,
+          '' if drop is None else ', drop_events_n_seconds_after_last_note=%r (last note ends at %r, total_time %r)' % (
+              drop, max([n.end_time for n in ns.notes] or [0.0]), ns.total_time)))
+    what, r, finding = oracle_case(midi_io, ns, chk.subrng('shuffle'), drop)
     if r is not None:
         print('returned: %d notes on instruments %s, tempos %s' % (
             len(r.notes), sorted({(n.instrument, n.program, n.is_drum) for n in r.notes}), [(t.time, t.qpm) for t in r.tempos]))
+    if what and what.startswith(CORR):
+        print('property statement holds on this input; %s' % what[len(CORR):])
+        return 0
     print('PROPERTY FAILS: %s%s' % (what, ' [known finding %s]' % finding if finding else '') if what else 'property holds on this input')
     return 1 if what else 0
